@@ -61,6 +61,17 @@ RtVerdict(e) ==
   ELSE IF e.again # e.text THEN <<"rt:rerender", e.again>>
   ELSE Good
 
+\* `bumpver show` / `show --environ` on a project whose configured current version is a text the code announced itself:
+\*  e.text : the configured version   e.exit : exit code of show   e.shown : the "Current Version:" text
+\*  e.env : the state printed by --environ (KEY=value lines; an empty value is NA)
+ShowVerdict(e) ==
+  LET back == ParseVersion(e.text, e.P, e.today) IN
+  IF IsBad(back) THEN (IF e.exit = 0 THEN <<"show:accepts-what-the-pattern-rejects", back.why>> ELSE Good)
+  ELSE IF e.exit # 0 THEN <<"show:refuses-a-legal-current-version", 0>>
+  ELSE IF e.shown # e.text THEN <<"show:current-version", e.shown>>
+  ELSE IF ~SameState(back, e.env) THEN <<"show:environ-state", DiffFields(back, e.env)>>
+  ELSE Good
+
 \* a text the code produced by bumping (library incr or CLI): it must be a legal current version
 \*  e.text : the produced text   e.valid / e.back / e.again : as for rt
 Rt2Verdict(e) ==
@@ -72,10 +83,17 @@ Rt2Verdict(e) ==
   ELSE IF Render(back, e.P) # e.text THEN <<"rt2:spec-rerender", Render(back, e.P)>>
   ELSE Good
 
+\* e.mode : "lib" (what the library's incr returned, no gate behind it) or "cli" (what `bumpver test` announced: the gate refuses a result that is
+\* not greater than the old version or that its own pattern does not accept).  A refusal is explained if the specification refuses too, or - "cli" only -
+\* if the gate has a reason; an unexplained refusal breaks the rule that would have applied (e.g. NUM + 1 with --tag-num).
 IncrVerdict(e) ==
-  LET t == Incr(e.old, e.P, e.f, e.date, e.today, Dev) IN
+  LET t == Incr(e.old, e.P, e.f, e.date, e.today, Dev)
+      mode == IF "mode" \in DOMAIN e THEN e.mode ELSE "cli" IN
   IF e.out = None \/ e.out = Raises
-  THEN (IF t = e.out THEN Good ELSE <<"incr:refusal", t>>)
+  THEN (IF t = e.out THEN Good
+        ELSE IF t = None \/ t = Raises THEN <<"incr:refusal", t>>
+        ELSE IF mode = "lib" \/ (VerCmp(e.old, t) = -1 /\ IsValid(t, e.P, e.today)) THEN <<"incr:unexplained-refusal", t>>
+        ELSE <<"incr:refusal", t>>)
   ELSE LET old == ParseVersion(e.old, e.P, e.today)
            new == ParseVersion(e.out, e.P, e.today)
            cal == CalInfo(e.date) F == FieldOrder(e.P) IN
@@ -126,17 +144,20 @@ SearchVerdict(e) ==
 \*  e.cfgver : config value   e.all : tags of all branches   e.branch : tags reachable from HEAD (both in the VCS's order)   e.scope   e.ignore
 \*  e.show : version `show` prints (<<0>> if it failed)   e.show_clean : the same with every non-matching tag removed
 \*  e.old : start version logged by `update`  e.new : announced version (<<0>> none)  e.exit : exit code of the update   e.exit_clean
+\*  e.uscope : the scope in force for the update (--tag-scope on the command line overrides the configured one; `show` has no such option)
 InList(x, ts) == \E q \in 1..Len(ts) : ts[q] = x
 ResolveVerdict(e) ==
   LET lst == IF e.scope = "branch" THEN e.branch ELSE e.all
       start == IF e.ignore THEN e.cfgver ELSE ResolveCurrent(e.cfgver, lst, e.scope, e.P, e.today)
-      valid == ValidTags(lst, e.P, e.today) IN
+      valid == ValidTags(lst, e.P, e.today)
+      ulst == IF e.uscope = "branch" THEN e.branch ELSE e.all
+      ustart == IF e.ignore THEN e.cfgver ELSE ResolveCurrent(e.cfgver, ulst, e.uscope, e.P, e.today) IN
   IF e.show = None THEN <<"resolve:show-fails", 0>>
   ELSE IF VerCmp(e.show, start) # 0 THEN <<"resolve:start-is-not-the-greatest-in-scope", start>>
   ELSE IF ~(e.show = e.cfgver \/ InList(e.show, valid)) THEN <<"resolve:start-is-not-one-of-the-candidates", start>>
   ELSE IF e.show_clean # e.show THEN <<"resolve:non-matching-tags-change-the-start", e.show_clean>>
   ELSE IF (e.exit = 0) # (e.exit_clean = 0) THEN <<"resolve:non-matching-tags-change-the-outcome", e.exit_clean>>
-  ELSE IF e.exit = 0 /\ e.old # None /\ VerCmp(e.old, start) # 0 THEN <<"resolve:update-starts-elsewhere", start>>
+  ELSE IF e.exit = 0 /\ e.old # None /\ VerCmp(e.old, ustart) # 0 THEN <<"resolve:update-starts-elsewhere", ustart>>
   ELSE IF e.exit = 0 /\ InList(e.new, e.all) THEN <<"resolve:new-version-equals-existing-tag", e.new>>
   ELSE Good
 
@@ -171,6 +192,7 @@ Verdict(e) ==
     [] e.ev = "parse"   -> ParseVerdict(e)
     [] e.ev = "rt"      -> RtVerdict(e)
     [] e.ev = "rt2"     -> Rt2Verdict(e)
+    [] e.ev = "show"    -> ShowVerdict(e)
     [] e.ev = "incr"    -> IncrVerdict(e)
     [] e.ev = "gate"    -> GateVerdict(e)
     [] e.ev = "pep"     -> PepVerdict(e)
